@@ -239,10 +239,10 @@ VDeleteSub(S, e, S2) ==
 (* UpdateSubscription: exactly the masked fields change (C17).  Mask paths *)
 (* are the model's field names; "dl" covers the dead-letter policy (dlt +  *)
 (* maxAtt), "retry" covers minB + maxB, "ttl" also restarts the expiry.    *)
-MaskFields(mask) ==
+MaskFields(mask) ==   \* mask : sequence of paths
   UNION {CASE p = "retry" -> {"minB", "maxB"}
            [] p = "dl" -> {"dlt", "maxAtt"}
-           [] OTHER -> {p} : p \in mask}
+           [] OTHER -> {p} : p \in RangeOf(mask)}
 
 VUpdateSub(S, e, S2) ==
   LET X == SubsNamed(S, e.name)
@@ -252,7 +252,7 @@ VUpdateSub(S, e, S2) ==
   THEN VErr(S, e, S2)
        \cup Chk("C12:update-sub-code",
               \/ X = {} /\ e.code = "NotFound"
-              \/ X # {} /\ "dl" \in e.mask /\ DT = {} /\ e.code = "NotFound")
+              \/ X # {} /\ "dl" \in RangeOf(e.mask) /\ DT = {} /\ e.code = "NotFound")
   ELSE
     Chk("C12:update-dead-sub-ok", X # {})
     \cup Chk("C17:update-mask-locality",
